@@ -1,2 +1,6 @@
 //! Naive reference models. They share no code and no tables with succinctly.
 pub mod lines;
+pub mod yaml_scan;
+pub mod json_rec;
+pub mod jsonnum;
+pub mod utf8;
